@@ -20,6 +20,7 @@ CheckOf(e) ==
     [] e.e = "Probe" -> ProbeCheck(e.written = 1, e.t)
     [] e.e = "FrameOut" -> FrameOutCheck(e.type, e.tag, e.t)
     [] e.e = "FrameIn" -> FrameInCheck(e.type, e.tag, e.t)
+    [] e.e = "Silence" -> SilenceCheck(e.on = 1, e.t)
     [] e.e = "Reopen" -> ReopenCheck(e.t)
     [] e.e = "End" -> EndCheck(e.t)
     [] OTHER -> "harness.unknownEvent"
@@ -35,6 +36,7 @@ UpdOf(e) ==
     [] e.e = "Probe" -> ProbeUpd(e.written = 1, e.t)
     [] e.e = "FrameOut" -> FrameOutUpd(e.type, e.tag, e.t)
     [] e.e = "FrameIn" -> FrameInUpd(e.type, e.tag, e.t)
+    [] e.e = "Silence" -> SilenceUpd(e.on = 1, e.t)
     [] e.e = "Reopen" -> ReopenUpd(e.t)
     [] e.e = "End" -> EndUpd(e.t)
 
